@@ -112,6 +112,44 @@ theorem client_id_names_one_key {PK ID : Type} [DecidableEq ID] (H : PK → ID) 
   rw [client_validate_iff] at h h'
   exact hinj (by rw [← h, ← h', hid])
 
+/-! ## the id is the hash STRING -/
+
+/-- **id_pair_exact**: a `(public key, client id)` pair is accepted exactly when the id is the hash string of the key —
+no other spelling of the same 32 bytes. -/
+theorem id_pair_exact {PK : Type} (hashHex : PK → String) (pk : PK) (id : String) :
+    idOk hashHex pk id = true ↔ id = hashHex pk := by
+  simp [idOk]
+
+/-- acceptance ⇒ the id is the canonical lower-case 64-hex hash (the hash renders canonically: `hex.EncodeToString`). -/
+theorem id_pair_canonical {PK : Type} (hashHex : PK → String) (hc : ∀ pk, CanonicalId (hashHex pk)) (pk : PK) (id : String)
+    (h : idOk hashHex pk id = true) : CanonicalId id ∧ id = hashHex pk := by
+  have := (id_pair_exact hashHex pk id).mp h
+  exact ⟨this ▸ hc pk, this⟩
+
+/-- any spelling that is not the string itself is refused, whatever it decodes to. -/
+theorem id_other_spelling_rejected {PK : Type} (hashHex : PK → String) (pk : PK) (v : String) (id' : String)
+    (_ : spelling v (hashHex pk) = some id') (hne : id' ≠ hashHex pk) : idOk hashHex pk id' = false := by
+  simp [idOk, hne]
+
+section IdExamples
+/-- a hash string for the examples. -/
+def exHash : Unit → String := fun _ => "ab12cdef00112233445566778899aabbccddeeff00112233445566778899aabb"
+def exUpper : String := "AB12CDEF00112233445566778899AABBCCDDEEFF00112233445566778899AABB"
+
+example : CanonicalId (exHash ()) := ⟨by decide, by decide⟩
+example : spelling "upper" (exHash ()) = some exUpper := by decide
+/-- the coded check refuses the upper-case spelling, a one-letter flip, a `0x` prefix, a trailing space, 63/65 digits … -/
+example : idOk exHash () exUpper = false := by decide
+example : (["upper", "flipfirst", "flipmid", "fliplast", "0x", "sptrail", "splead", "d63", "odd", "d65", "d65b", "d62"].map
+    (fun v => (spelling v (exHash ())).map (idOk exHash ()))) = List.replicate 12 (some false) := by decide
+example : (spelling "canon" (exHash ())).map (idOk exHash ()) = some true := by decide
+/-- **the distinction**: "decode both sides, compare the bytes" would ACCEPT the upper-case and the mixed-case
+spellings — an id that is not the string used as `Client.ID`, state key and cache key. -/
+theorem decoded_compare_accepts_upper : idOkDecoded exHash () exUpper = true ∧ idOk exHash () exUpper = false := by decide
+example : (["upper", "flipfirst", "flipmid", "fliplast"].map
+    (fun v => (spelling v (exHash ())).map (idOkDecoded exHash ()))) = List.replicate 4 (some true) := by decide
+end IdExamples
+
 /-! ## non-vacuity -/
 example : verifyLib (pubKey (3 : ℚ)) 5 (sign 3 5) = true := sign_verify 3 5 (by norm_num) (by norm_num)
 example : verifyLib (pubKey (4 : ℚ)) 5 (sign 3 5) = false :=
